@@ -188,3 +188,39 @@ def reqvar(a, *rest):
 def lit(p=None, q=None):
   rec('lit', p, q)
   return (p, q)
+
+
+# ---- in-memory file system behind Gin's own reader interface (C03/C14/C16) ----
+FILES = {}
+
+
+class _MemFile:
+
+  def __init__(self, name, text):
+    import io
+    self._io = io.StringIO(text)
+    self.name = name
+
+  def readline(self, *a):
+    return self._io.readline(*a)
+
+  def __enter__(self):
+    return self
+
+  def __exit__(self, *a):
+    return False
+
+
+def mem_open(path):
+  return _MemFile(path, FILES[path])
+
+
+def mem_exists(path):
+  return path in FILES
+
+
+def use_mem_fs(files):
+  """Installs (after fresh()) the in-memory reader with the given files."""
+  FILES.clear()
+  FILES.update(files)
+  gin.config.register_file_reader(mem_open, mem_exists)
